@@ -81,7 +81,9 @@ CORRUPTIONS = ["flip-quote", "flip-quote-report-data", "flip-quote-signature", "
                "cert-by-key-of-another-algorithm", "cert-by-key-of-another-algorithm",
                "att-message-extended", "cert-with-unknown-signature-algorithm",
                "failing-branch-listed-before-the-quote",
-               "failing-branch-listed-before-the-quote"]
+               "failing-branch-listed-before-the-quote",
+               "att-key-off-the-curve-with-a-chord-signature",
+               "att-key-off-the-curve-with-a-chord-signature"]
 
 
 # process time zones of the shards (None: as inherited, UTC in this sandbox): validity is a
@@ -263,6 +265,40 @@ def corrupt(rng, m, doc, kind):
         # other custom data, report data left as it was
         q["custom_data"] = g.powhsm_message(rng)[0].hex()
         return d, root, "quote"
+    if kind == "att-key-off-the-curve-with-a-chord-signature":
+        # an "attestation key" that is no point of P-256, certified like any key (report
+        # data = SHA-256(x || y || auth data), report body signed by the last certificate's
+        # key), and a quote "signature" (r, r) computed from the quote's digest alone: with
+        # u2 = 1 the verification sum u1*G + u2*Q is a chord through u1*G, and Q is chosen on
+        # the line that makes its abscissa r.  Nobody signed that quote.
+        import ecdsa
+        import hashlib
+        C = ecdsa.NIST256p
+        G, N, P = C.generator, C.order, C.curve.p()
+        z = int.from_bytes(hashlib.sha256(bytes.fromhex(q["message"])).digest(), "big")
+        for _ in range(200):
+            r = rng.getrandbits(256) % N
+            if r == 0:
+                continue
+            u1 = z * pow(r, -1, N) % N
+            if u1 == 0:
+                continue
+            t = (u1 * G).to_affine()
+            xt, yt = int(t.x()), int(t.y())
+            lam = rng.getrandbits(256) % P
+            xq = (lam * lam - xt - r) % P
+            yq = (yt + lam * (xq - xt)) % P
+            if xq == xt or C.curve.contains_point(xq, yq):
+                continue
+            raw = xq.to_bytes(32, "big") + yq.to_bytes(32, "big")
+            a["key"] = (b"\x04" + raw).hex() if len(a["key"]) != 128 else raw.hex()
+            auth = bytes.fromhex(a["auth_data"])
+            body = g.report_body(rng, hashlib.sha256(raw + auth).digest())
+            a["message"] = body.hex()
+            a["signature"] = g.sign_der(m.cert_keys[-1], body).hex()
+            q["signature"] = ecdsa.util.sigencode_der(r, r, N).hex()
+            return d, root, "attestation"
+        return None
     if kind == "att-key-replaced":
         k2 = g.new_key(rng)
         a["key"] = (b"\x04" + g.xy(k2.public_key())).hex()
